@@ -501,8 +501,7 @@ def load_under_factory(path, name, ft=None):
         spec.loader.exec_module(m)
     finally:
         sys.modules["threading"] = saved
-    if getattr(m, "threading", None) is not ft:
-        raise MachineryError("private copy of %s does not refer to threading as a module" % path)
+    m.__dict__["_c20_factory"] = ft
     return m
 
 
